@@ -54,7 +54,7 @@ def delimiter_re(boundary: bytes):
     return re.compile(rb"(?:\r\n|\r|\n)--" + re.escape(boundary) + rb"(?:--|[ \t\x0b\x0c]*(?:\r\n|\r|\n))")
 
 
-def build(parts, boundary: bytes, nl: bytes = b"\r\n", preamble: bytes = b"", epilogue: bytes = b"", final_nl=True):
+def build(parts, boundary: bytes, nl: bytes = b"\r\n", preamble: bytes = b"", epilogue: bytes = b"", final_nl=True, pad: bytes = b""):
     """Return (body, classes) or None when the combination is not well formed (a payload that
     would itself contain a delimiter line, or the other newline kind for bare-LF / bare-CR)."""
     out = bytearray()
@@ -80,7 +80,7 @@ def build(parts, boundary: bytes, nl: bytes = b"\r\n", preamble: bytes = b"", ep
             intended.append(len(out))
             emit(nl, b"L")
         first = False
-        emit(b"--" + boundary + nl, b"D")
+        emit(b"--" + boundary + pad + nl, b"D")  # pad: transport padding (RFC 2046: blanks behind the boundary)
         emit(b"Content-Disposition: " + p.disposition().encode("utf-8") + nl, b"H")
         if p.ctype:
             emit(b"Content-Type: " + p.ctype.encode("latin-1") + nl, b"H")
@@ -94,7 +94,7 @@ def build(parts, boundary: bytes, nl: bytes = b"\r\n", preamble: bytes = b"", ep
     if parts or preamble:
         intended.append(len(out))
         emit(nl, b"L")
-    emit(b"--" + boundary + b"--", b"D")
+    emit(b"--" + boundary + b"--" + (pad if final_nl else b""), b"D")
     if final_nl:
         emit(nl, b"D")
     if epilogue:
